@@ -480,6 +480,17 @@ impl Gen<'_> {
                 u.out.push(w);
             }
         }
+        // a command line may end in a separator: it is complete all the same
+        let one_command_line = u.lines.len() == 1 || (u.reads_stdin && u.data == vec![1] && u.lines.len() == 2);
+        if one_command_line
+            && !u.lines[0].trim().is_empty()
+            && !u.lines[0].starts_with('#')
+            && !u.lines[0].ends_with('\\')
+            && u.verbose.is_none()
+            && self.rng.below(4) == 0
+        {
+            u.lines[0].push(';');
+        }
         if let Some(s) = u.status {
             self.status = s;
         }
